@@ -116,12 +116,20 @@ class ModuleInfo:
             raise AnalysisError(f"anchor vanished: class {self.name}.{local}") from None
 
 
+import os as _os
+_FOLD_ARGS = _os.environ.get("VERIF_FOLD_ARGS", "1") == "1"
+
+
 def _fold_returned_temporaries(tree: ast.AST) -> None:
     """`t = <expr>` immediately followed by `return t`, t a plain local bound nowhere else in
     the function, is read as `return <expr>`: the two spellings return the same value and no rule
     should tell them apart. (The package itself never writes the first form -- its linter folds
     it -- so on the tree as it stands this changes nothing; it is what makes a rule that reads a
-    `return` indifferent to a result being given a name first.)"""
+    `return` indifferent to a result being given a name first.)
+
+    Likewise `t = <expr>` immediately followed by a statement whose value is a call with `t` as
+    its first argument, t bound once and read once: read as the call with `<expr>` in that place
+    (94 sites of the tree as it stands; VERIF_FOLD_ARGS=0 switches this second fold off)."""
     for fn in ast.walk(tree):
         if not isinstance(fn, (ast.FunctionDef, ast.AsyncFunctionDef)):
             continue
@@ -143,6 +151,12 @@ def _fold_returned_temporaries(tree: ast.AST) -> None:
                     if isinstance(a, ast.Assign) and len(a.targets) == 1 and isinstance(a.targets[0], ast.Name) and isinstance(b, ast.Return) and isinstance(b.value, ast.Name) \
                             and b.value.id == a.targets[0].id and stores.get(b.value.id) == 1 and loads.get(b.value.id) == 1 and b.value.id not in params:
                         b.value = a.value
+                        del body[i]
+                        continue
+                    if _FOLD_ARGS and isinstance(a, ast.Assign) and len(a.targets) == 1 and isinstance(a.targets[0], ast.Name) and isinstance(b, (ast.Assign, ast.Return, ast.Expr)) \
+                            and isinstance(b.value, ast.Call) and b.value.args and isinstance(b.value.args[0], ast.Name) and b.value.args[0].id == a.targets[0].id \
+                            and stores.get(a.targets[0].id) == 1 and loads.get(a.targets[0].id) == 1 and a.targets[0].id not in params:
+                        b.value.args[0] = a.value
                         del body[i]
                         continue
                     i += 1
